@@ -18,6 +18,10 @@ HARNESSES = [
          bounds='26 failing MOF inputs (token-level mutations, pragmas, include structure incl. self-include and error after/inside nested files, embedded-instance MOF, aliases, huge numbers, bad escapes) + the valid MOF, '
                 'with/without declarations prefix, from string or file, repository fault at call index 0..6 with status code 1..28, then a valid compile on the SAME compiler',
          quick=dict(timeout=80, parts=9, reach_timeout=60, reach_parts=9), thorough=dict(timeout=600, parts=27, reach_timeout=60, reach_parts=27)),
+    dict(name='H2b-repository-faults', engine='crosshair', module='c09_compiler', function='faults', reach='faults_reach',
+         functions=['pywbem._mof_compiler:p_mp_createClass', 'pywbem._mof_compiler:p_mp_createInstance', 'pywbem._mof_compiler:p_mp_setQualifier', 'pywbem._mof_compiler:MOFCompiler.find_mof'],
+         stubs=['as H2'], bounds='the valid MOF x EVERY repository fault: call index 0..6 x status code 1..28 x prefix x string/file x second compile (1 568 scenarios, exhausted)',
+         quick=dict(timeout=120, parts=14, reach_timeout=60, reach_parts=14), thorough=dict(timeout=400, parts=14, reach_timeout=60, reach_parts=14)),
 ]
 CLAIM = dict(
     engine='own AST->z3 interpreter + crosshair',
